@@ -459,21 +459,21 @@ Definition cls_eqb (a b : cls) : bool :=
   | _, _ => false
   end.
 
-(* the node the reference must blame *)
-Definition expect_nid (st : fsite) (p : program) : nid :=
+(* the node the reference must blame; i: the phrase the plant is in (phrase plants), m: the largest node id of p *)
+Definition expect_nid_at (st : fsite) (m : nid) (i : option pinfo) : nid :=
   match st with
   | SZap s => s
-  | SDup s => s + (max_nid p + 1)
+  | SDup s => s + (m + 1)
   | SRoot s e => head_nid e
   | SArg s k e =>
-      match find_phrase p s with
+      match i with
       | Some i => match phrase_root (pi_ph i) with
                   | Some (ECall g _) => o_nid (fname_occ g)
                   | _ => 0 end
       | None => 0
       end
   | SDrop s _ _ =>
-      match find_phrase p s with
+      match i with
       | Some i => match pi_ph i with
                   | PConc (CInstE _ _ e _ _ _) => o_nid e
                   | PConc (CInstC _ c _ _) => o_nid c
@@ -481,25 +481,28 @@ Definition expect_nid (st : fsite) (p : program) : nid :=
       | None => 0
       end
   | SFlip s =>
-      match find_phrase p s with
+      match i with
       | Some i => match pi_ph i with
                   | PStmt (SSig _ t _) | PStmt (SVar _ t _) => root_nid_name t
                   | _ => 0 end
       | None => 0
       end
   end.
+Definition expect_nid (st : fsite) (p : program) : nid :=
+  expect_nid_at st (max_nid p) (find_phrase p (site_nid st)).
 
 (* a phrase plant is eligible when the planted phrase, checked in the environment recorded for the ORIGINAL
    phrase, is rejected at the expected node with the class of the fault *)
 Definition local_blame (i : pinfo) (ph' : phrase) : option (nid * cls) :=
   match check_phrase Exactly (pi_GE i) (pi_G i) ph' with Ok _ => None | Bad n c => Some (n, c) end.
+Definition eligible_at (f : fclass) (st : fsite) (m : nid) (i : pinfo) : bool :=
+  match local_blame i (plant_phrase st (pi_ph i)) with
+  | Some (n, c) => (n =? expect_nid_at st m (Some i)) && cls_eqb c (fclass_cls f)
+  | None => false
+  end.
 Definition eligible_phrase (f : fclass) (st : fsite) (p : program) : bool :=
   match find_phrase p (site_nid st) with
-  | Some i =>
-      match local_blame i (plant_phrase st (pi_ph i)) with
-      | Some (n, c) => (n =? expect_nid st p) && cls_eqb c (fclass_cls f)
-      | None => false
-      end
+  | Some i => eligible_at f st (max_nid p) i
   | None => false
   end.
 
